@@ -2,7 +2,8 @@
 
 Decided: writer/reader framing agreement and unmodified values on the wire (R1), shifts are
 guarded (R2), representation ownership (R3), equality is derived and the first window always
-sets first_year (R4), year labels and year slots are paired one to one (R5).
+sets first_year (R4), year labels and year slots are paired one to one (R5), first_after searches
+from the caller's unmodified date (R6).
 Not decided: bit positions, window growth counts, first_after across years as values.
 """
 
@@ -418,6 +419,22 @@ def run(ctx, prog, res):
             r5.check(not diff, {"fn": f.id, "zip_lengths": "equal", "length": {str(k_): v_ for k_, v_ in lens[0].items()}}, "C15.R5:length:%s" % f.id,
                      "the two sides of a zip in %s have different lengths (%s vs %s): the longer side's last elements are never looked at" % (f.id, shs[0], shs[1]), lib.where_of(f, t))
     r5.floor(6)
+
+    # R6 -------------------------------------------------------------------------------------
+    r6 = res.rule("C15.R6", "first_after answers about the caller's date: the strict search in the date's own year, the offset of that year in the window and the labels of the following years are all computed from the unmodified argument (a clamped or shifted date makes the strict search skip a member)")
+    fa = prog.require_fn(CAL + "::first_after")
+    n6 = 0
+    for x in prog.with_closures(fa.id):
+        fx = prog.fns[x]
+        for _, t in fx.calls():
+            nm = flow.call_name(t)
+            if re.search(r"Datelike>::(year|month|day)$|NaiveDate::(year|month|day)$", nm):
+                n6 += 1
+                sh = flow.shape(fx, t["args"][0], depth=5)
+                ok = re.fullmatch(r"p2|p1\.0|\*?p1\.\d", sh) is not None
+                r6.check(ok, {"fn": fx.id.split("::")[-1], "reads": nm.split("::")[-1] + "(date)"}, "C15.R6:%s" % nm.split("::")[-1],
+                         "first_after takes the %s of %s instead of the caller's date" % (nm.split("::")[-1], sh), lib.where_of(fx, t))
+    r6.floor(4)
 
     # W --------------------------------------------------------------------------------------
     witness.run_doctests(ctx, prog, res, "C15.W", "the representation cannot be built or read from outside the crate; twins compile", "c15", floor=4)
